@@ -291,6 +291,7 @@ func TestDrive(t *testing.T) {
 	ctx := context.Background()
 	n := 0
 	base := t.TempDir()
+	eligible := map[string]int{}
 	for ci, c := range cases {
 		if c.Types == nil {
 			c.Types = []string{}
@@ -352,10 +353,24 @@ func TestDrive(t *testing.T) {
 				"limit": limit, "wantpath": "/v2/" + repo + "/manifests/" + strings.Replace(subject.Digest.String(), ":", "-", 1), "tagschema": true})
 		}
 		// every case with a Content-Length; the oversize cases and every fourth other case also without one
-		for _, noLen := range []bool{false, true} {
+		// ... and some of the plain cases once more with the context cancelled from inside the first page's callback
+		// (which itself returns nil): unless that page was the last one the call must not report success
+		for variant := 0; variant < 3; variant++ {
+			noLen, cancelAt := variant == 1, 0
 			if noLen && c.Oversize == 0 && ci%4 != 0 {
 				continue
 			}
+			if variant == 2 {
+				if c.CbFail != 0 || c.Oversize != 0 {
+					continue
+				}
+				eligible[c.API]++
+				if eligible[c.API]%3 != 0 { // every third plain case of each API
+					continue
+				}
+				cancelAt = 1
+			}
+			cctx, cancel := context.WithCancel(ctx)
 			srv := &server{c: c, noLen: noLen}
 			pages := [][]int{}
 			var callErr error
@@ -367,6 +382,9 @@ func TestDrive(t *testing.T) {
 				pages = append(pages, items)
 				if c.CbFail != 0 && len(pages) == c.CbFail {
 					return errCb
+				}
+				if cancelAt != 0 && len(pages) == cancelAt {
+					cancel()
 				}
 				return nil
 			}
@@ -382,12 +400,12 @@ func TestDrive(t *testing.T) {
 			case "tags":
 				r, _ := remote.NewRepository(host + "/" + repo)
 				r.PlainHTTP, r.Client, r.TagListPageSize, r.MaxMetadataBytes = true, &http.Client{Transport: srv}, c.N, limit
-				callErr = r.Tags(ctx, last, strs)
+				callErr = r.Tags(cctx, last, strs)
 				wantpath = "/v2/" + repo + "/tags/list"
 			case "repos":
 				r, _ := remote.NewRegistry(host)
 				r.PlainHTTP, r.Client, r.RepositoryListPageSize, r.MaxMetadataBytes = true, &http.Client{Transport: srv}, c.N, limit
-				callErr = r.Repositories(ctx, last, strs)
+				callErr = r.Repositories(cctx, last, strs)
 				wantpath = "/v2/_catalog"
 			case "referrers":
 				r, _ := remote.NewRepository(host + "/" + repo)
@@ -397,7 +415,7 @@ func TestDrive(t *testing.T) {
 				if c.Filter != "" {
 					at = atOf(c.Filter)
 				}
-				callErr = r.Referrers(ctx, subject, at, func(ds []ocispec.Descriptor) error {
+				callErr = r.Referrers(cctx, subject, at, func(ds []ocispec.Descriptor) error {
 					idx := []int{}
 					for _, d := range ds {
 						i, _ := strconv.Atoi(d.Annotations["idx"])
@@ -425,7 +443,8 @@ func TestDrive(t *testing.T) {
 			tr := rot.Next()
 			tr.Begin(n)
 			tr.Emit(map[string]any{"e": "page", "case": ci, "c": c, "pages": pages, "reqs": srv.reqs, "outcome": outcome, "consumed": consumed,
-				"limit": limit, "wantpath": wantpath, "nolen": noLen})
+				"limit": limit, "wantpath": wantpath, "nolen": noLen, "cancelat": cancelAt})
+			cancel()
 		}
 	}
 	rot.Close()
